@@ -340,14 +340,23 @@ func (s *session) check(hi, si int, e *HistEntry, o *stepObs, add func(Mismatch)
 }
 
 // probeNilRec finds out whether a default-mode call of a nil function leaves
-// a record (left open by the properties).
-func probeNilRec(e *Entry) bool {
+// a record (left open by the properties). hung: the probe never returned.
+func probeNilRec(e *Entry) (rec bool, hung bool) {
 	if e.Stub || len(e.Methods) == 0 {
-		return false
+		return false, false
 	}
-	s := newSession(e, map[string]string{"A": e.Methods[0]})
-	o := s.do("call", "A", []string{"nil"})
-	return len(o.after[e.Methods[0]]) > 0
+	done := make(chan bool, 1)
+	go func() {
+		s := newSession(e, map[string]string{"A": e.Methods[0]})
+		o := s.do("call", "A", []string{"nil"})
+		done <- len(o.after[e.Methods[0]]) > 0
+	}()
+	select {
+	case r := <-done:
+		return r, false
+	case <-time.After(hangTimeout):
+		return false, true
+	}
 }
 
 func runSeqReplay(job *SeqJob) *SeqResult {
@@ -357,7 +366,14 @@ func runSeqReplay(job *SeqJob) *SeqResult {
 		res.Infra = "unknown mock " + job.Mock
 		return res
 	}
-	res.NilRec = probeNilRec(e)
+	var probeHung bool
+	res.NilRec, probeHung = probeNilRec(e)
+	if probeHung {
+		res.NMismatch++
+		res.Mismatches = append(res.Mismatches, Mismatch{Hist: 0, Step: 1, Prop: "C06,C07,C04", Field: "hang", Want: "operations return",
+			Got: "after a call of a nil function panicked, reading the accessors never returns", Op: "call A nil; calls"})
+		return res
+	}
 	f, err := os.Open(job.HistFile)
 	if err != nil {
 		res.Infra = err.Error()
@@ -424,6 +440,12 @@ func runSeqReplay(job *SeqJob) *SeqResult {
 			case <-time.After(hangTimeout):
 				e := h.H[step]
 				p := map[string]string{"call": "C03", "calls": "C04", "reset": "C08", "resetall": "C08"}[e.Op]
+				for _, prev := range h.H[:step+1] {
+					if prev.Op == "call" && prev.Mode[0] == "nil" {
+						p += ",C07"
+						break
+					}
+				}
 				add(Mismatch{Hist: hi, Step: step + 1, Prop: "C06," + p, Field: "hang", Want: "operation returns",
 					Got: fmt.Sprintf("no return within %s", hangTimeout), Op: e.Op + " " + e.M + " " + strings.Join(e.Mode, ":")})
 				hung++
@@ -496,7 +518,12 @@ func runSeqRecord(job *SeqJob) *SeqResult {
 		res.Infra = "unknown mock " + job.Mock
 		return res
 	}
-	res.NilRec = probeNilRec(e)
+	var probeHung bool
+	if res.NilRec, probeHung = probeNilRec(e); probeHung {
+		res.Traces = 0
+		os.WriteFile(job.OutFile, nil, 0o644)
+		return res
+	}
 	out, err := os.Create(job.OutFile)
 	if err != nil {
 		res.Infra = err.Error()
